@@ -31,7 +31,8 @@ def run(prop, tier, seed, replay=None):
         "(answers the primality question / returns a prime factor); every answer of the real code is certified per call by the verified checkers",
         "the reference test above 2^20 is Miller-Rabin with the bases 2..37 (deterministic below 3.3e24; that fact is not proved in Lean); "
         "below 2^20 it is trial division, proved equivalent to Nat.Prime",
-        "mpz_get_si / mpz_root / mpz_gcd / divmod contracts as in Prim/Gmp.lean (modelled, not verified)",
+        "mpz_get_si / mpz_gcd / divmod contracts as in Prim/Gmp.lean; mpz_root by the explicit contract RootOK (floor of the k-th root; the driver's bisection "
+        "is proved to meet it); the rho / ECM searches by the contracts RhoFull (loops = 0) and 'any positive divisor' (bounded loops): modelled, not verified",
     ]
     try:
         changed = gen_primes.main()
@@ -55,7 +56,8 @@ def run(prop, tier, seed, replay=None):
     flow.fill_coverage(V, L, res, counts,
                        rule="isprime/nextprime/prevprime: every n in [-70, 2^16+64) plus a 64-bit grid (2^k +- 40, strong pseudoprimes, Carmichael "
                             "numbers, p*q near 2^32/2^64, random); factorisation: every n in [-40, 2500) (thorough 20000), products of small primes "
-                            "with multiplicity, semiprimes, prime powers, negatives; isprimepower: every n in [-300, 70000) and p^e grids; "
+                            "with multiplicity, semiprimes, prime powers, negatives, each through set, set(Lf,n), factor, iffactorprime, primefactor, divisors and (sub-sampled) "
+                            "set with loops in {1,2,3,7,40,5000}; isprimepower: every n in [-300, 70000) and p^e grids; "
                             "distinct = distinct (operation, argument); non-trivial = argument outside {0,1}",
                        extra={"lines_per_operation": keys})
     V.finish()
